@@ -15,14 +15,17 @@ from ..common import Result, Violation, call_repo
 ID = 'C17'
 LEVEL = 'exploration'
 ENGINE = 'hypothesis + exhaustive grid'
-RULE = ('kind pipeline (4%): a Generator(args) run whose weight vectors handed to '
+RULE = ('kind sampling (1%): first-position share of the more popular half of the agents in '
+        '3000 generated lists against the linear popularity; kind pipeline (5%): a Generator(args) run whose weight vectors handed to '
         'numpy.random.choice are captured and checked; otherwise cases are (n, s, numeric type of s); grid n=1..40 x 60 skews enumerated, the '
         'rest drawn (n up to 300/2000, s log-uniform in [1e-6,1e6], near-1 values, '
         'integers); non-trivial = n >= 3 and s != 1; distinct = distinct (n, s, type)')
 ASSUMPTIONS = [
     'floating point tolerance 1e-9 relative on every comparison',
-    '"s times as likely to be drawn first" is reduced to the weights handed to '
-    'numpy.random.choice(p=...); the sampling itself is not re-tested',
+    '"s times as likely to be drawn first" is checked on the weights handed to '
+    'numpy.random.choice(p=...) and, statistically, on who comes first in 3000 generated lists '
+    '(kind sampling: tolerance 0.07 on a share whose standard deviation is 0.009; false-alarm '
+    'probability < 1e-13 per case)',
 ]
 EXHAUSTIVE = {'quick': False, 'thorough': False}
 TOL = 1e-9
@@ -61,7 +64,34 @@ def _case(draw, nmax):
 
 @st.composite
 def _mixed(draw, nmax):
-    if draw(st.sampled_from(range(100))) < 4:
+    k = draw(st.sampled_from(range(1000)))
+    if k >= 985:
+        # thousands of agents (n beyond any bound a fast path might switch at)
+        n = draw(st.sampled_from([1000, 1024, 2000, 2001, 2500, 4097, 6000, 10001]))
+        s = draw(st.sampled_from([2, 5, 0.5, 7.25, 1.000001, 1000.0, 1, 1e-3]))
+        return {'n': n, 's': s, 'typ': 'int' if isinstance(s, int) else 'float'}
+    if k >= 975:
+        # the property itself, statistically: who is drawn FIRST (see run_sampling)
+        big = draw(st.sampled_from([False, False, True]))
+        return {'kind': 'sampling', 'n2': 1200 if big else draw(st.sampled_from([20, 40])),
+                'L': 60 if big else draw(st.sampled_from([10, 20])), 'n1': 3000,
+                's': draw(st.sampled_from([3.0, 5.0, 9.0, 0.2])),
+                'mp': draw(st.sampled_from(['ha', 'hr', 'spa'])),
+                'seed': draw(st.sampled_from(range(10000)))}
+    if k >= 965:
+        # a big pool of rankable agents and short lists, through Generator(args)
+        n2 = draw(st.sampled_from([1000, 1200, 2001, 2600]))
+        mp = draw(st.sampled_from(['ha', 'hr', 'spa']))
+        v = {'mp': mp, 'numinst': 1, 'n1': draw(st.sampled_from([1, 3, 6])), 'n2': n2, 'pmin': 1,
+             'pmax': draw(st.sampled_from([1, 5, 50, 60, 61])), 'uq': n2,
+             'skew': draw(st.sampled_from([2.0, 4.0, 7.5, 0.5])),
+             'seed': draw(st.sampled_from(range(10000)))}
+        if mp == 'hr':
+            v['twopl'] = True
+        if mp == 'spa':
+            v.update(n3=draw(st.sampled_from([1, 7])), luq=v['n1'] + 5)
+        return {'kind': 'pipeline', 'v': v, 'prior_skew': None}
+    if k < 40:
         # the weights actually handed to numpy.random.choice during a generator run
         from .. import genargs
         v = draw(genargs.legal_vectors(nmax=(6, 12, 4), numinst_max=1))
@@ -156,14 +186,83 @@ def run_pipeline(case):
             raise Violation('pipeline_unweighted', 'preference list drawn without popularity '
                             'weights (skew %r)' % s)
         check_weights(p, n2, s, 'weights used by Generator(-mp %s -skew %r)' % (v['mp'], s))
-    return Result(n2 >= 3 and s != 1, ['pipeline', 'mp=' + v['mp'],
+    return Result(n2 >= 3 and s != 1, ['pipeline', 'mp=' + v['mp']] + ['big_pool'] * (n2 >= 1000) + [
                                        'skew_given' if 'skew' in v else 'skew_default']
                   + (['after_prior_run'] if case.get('prior_skew') is not None else []))
+
+
+LAST = {}
+
+
+def run_sampling(case):
+    """'The most popular agent is s times as likely to be drawn first as the least popular one',
+    observed on the generated files without looking inside the generator: n1 = 3000 lists of
+    fixed length L over n2 agents.  The popularity order of the agents is estimated from
+    positions 2..L: the mean position of an agent over the lists in which it is not first
+    (absent counts as L+1) decreases with its weight, for complete lists as well as for short
+    ones (a plain frequency count would not do: in a complete list every agent that is not
+    first appears later).  The share of FIRST
+    positions held by the more popular half must then be T = (1+3s)/(4(1+s)) for s >= 1 (the
+    mass of the upper half of an arithmetic progression from 1 to s), resp. the mirrored value
+    for s < 1.  Tolerance 0.07 absolute: the binomial standard deviation of the share is
+    <= 0.0092 with 3000 lists, so a correct generator is outside the tolerance with probability
+    < 1e-13 per case (misranked agents near the median have almost equal weights and move the
+    share by less than 0.01).  The only other statistical oracle of the suite is in C08."""
+    from .. import genargs, refmodel
+    n1, n2, L, s = case['n1'], case['n2'], case['L'], case['s']
+    v = {'mp': case['mp'], 'numinst': 1, 'n1': n1, 'n2': n2, 'pmin': L, 'pmax': L, 'uq': max(n1, n2),
+         'skew': s, 'seed': case['seed']}
+    if case['mp'] == 'spa':
+        v.update(n3=2, luq=n1)
+    outdir = genargs.fresh_outdir()
+    try:
+        status, code, err = genargs.run_generator(genargs.build_argv(v, outdir), v['seed'])
+    except Violation as e:
+        if e.facet.startswith('exception:'):
+            return Result(False, ['sampling', 'skipped:exception'])
+        raise
+    if status != 'ok':
+        return Result(False, ['sampling', 'skipped:rejected'])
+    text = genargs.read_outputs(outdir, 1)[0]
+    lines = text.split('\n')[1:1 + n1]
+    later = [0] * (n2 + 1)      # sum of positions (2..L) over the lists where present, not first
+    seen = [0] * (n2 + 1)       # number of such lists
+    first = [0] * (n2 + 1)
+    for ln in lines:
+        toks = [int(t.strip('()')) for t in ln.split()[1:] if t.strip('()').isdigit()]
+        if len(toks) != L or any(t < 1 or t > n2 for t in toks):
+            return Result(False, ['sampling', 'skipped:malformed'])       # C08's statement
+        first[toks[0]] += 1
+        for pos, t in enumerate(toks[1:], 2):
+            later[t] += pos
+            seen[t] += 1
+
+    def mean_position(a):
+        others = n1 - first[a]
+        return (later[a] + (others - seen[a]) * (L + 1)) / float(others) if others else L + 1
+    order = sorted(range(1, n2 + 1), key=lambda a: (-mean_position(a), a))
+    upper = order[n2 // 2:]
+    share = sum(first[a] for a in upper) / float(n1)
+    hi = max(s, 1.0 / s)
+    wts = [1.0 + i * (hi - 1.0) / (n2 - 1) for i in range(n2)]
+    theory = sum(wts[n2 - len(upper):]) / sum(wts)   # ~ (1+3s)/(4(1+s)) for large n2
+    if abs(share - theory) > 0.07:
+        raise Violation('first_choice_share', 'skew %r, %d agents, %d lists of length %d: the more '
+                        'popular half of the agents (ranked by their mean position within '
+                        '2..%d) holds %.3f of the first positions; the linear popularity with '
+                        'ratio %r gives %.3f (tolerance 0.07)' % (s, n2, n1, L, L, share, s, theory))
+    dev = abs(share - theory)
+    LAST['dev'] = share - theory
+    return Result(True, ['sampling', 'mp=' + case['mp'], 'n2=%d' % n2,
+                         'sampling:dev<0.02' if dev < 0.02 else (
+                             'sampling:dev<0.035' if dev < 0.035 else 'sampling:dev<0.07')])
 
 
 def run_case(case):
     if case.get('kind') == 'pipeline':
         return run_pipeline(case)
+    if case.get('kind') == 'sampling':
+        return run_sampling(case)
     from matchingproblems.generator import generator_shared as gs
     n, s = case['n'], case['s']
     s = int(s) if case['typ'] == 'int' else float(s)
@@ -172,7 +271,7 @@ def run_case(case):
     if n == 1:
         return Result(False, ['n=1'])
     labels = ['s>1' if s > 1 else ('s<1' if s < 1 else 's=1'), case['typ'],
-              'n<=12' if n <= 12 else 'n>12']
+              'n<=12' if n <= 12 else ('n>12' if n < 1000 else 'n>=1000')]
     return Result(n >= 3 and s != 1, labels)
 
 MANIFEST = {
@@ -186,4 +285,4 @@ MANIFEST = {
     'note': 'Trusted: IEEE double arithmetic within 1e-9 relative tolerance; the reduction of '
             '"s times as likely" to the weight vector (numpy.random.choice is not re-tested).',
 }
-MANIFEST['text'] += (' ' + '4% of the cases run Generator(args) (after an earlier run with another skew) and check every weight vector handed to numpy.random.choice.')
+MANIFEST['text'] += (' ' + 'n goes up to 10001 (thousands of agents); big pools of 1000-2600 rankable agents with short lists go through Generator(args); a statistical kind reads who comes FIRST in 3000 generated lists and compares the share of the more popular half with the linear popularity (tolerance 7 standard deviations). 4% of the cases run Generator(args) (after an earlier run with another skew) and check every weight vector handed to numpy.random.choice.')
